@@ -5,7 +5,9 @@ CONSTANTS
   NoForeignLen = 3
   OtherLen = 2
   WrapLen = 2
+  ShareLen = 2
   MatchKey = "annotation"
+  ClipKey = "uuid"
   ClipValidator = "after"
 CONSTRAINT Export
 INVARIANT ImplIffValid
